@@ -17,6 +17,11 @@ struct RegionData {
   std::map<int64_t, ByteCell> sparse;   // individually tracked bytes beyond the dense prefix (constant-offset writes)
   ByteCell rest;                        // summary of every other byte
   uint8_t provAll = 0;                  // union of every provenance ever written into the region (monotone)
+  int64_t nulLo = -1, nulHi = -1;       // a 0 byte was stored at one offset in [nulLo,nulHi] and not overwritten since
+  void noteWrite(i128 a, i128 b, bool isNul) {          // write of [a,b)
+    if (isNul && b - a >= 1) { if (b - a == 1 || true) { nulLo = (int64_t)a; nulHi = (int64_t)(b - 1); } return; }
+    if (nulLo >= 0 && a <= nulHi && b > nulLo) nulLo = nulHi = -1;
+  }
   mutable uint64_t hcache = 0; mutable bool hvalid = false;   // cached content hash (invalidated by Region::w())
   std::map<int64_t, std::pair<unsigned, Val>> scalars;   // exact-offset typed cells (offset -> (size, value))
 
